@@ -400,6 +400,8 @@ func c12(p *model.Prog, r *report.Result) {
 	w5SizeCount(p, r, "C12.R10")
 	w6AvcSingle(p, r, "C12.R11")
 	w7DoneSeqEveryUnit(p, r, "C12.R13")
+	w8JumpOnlyWhenFull(p, r, "C12.R14")
+	w8SeqPlusOne(p, r, "C12.R15")
 	w6ShiftWidth(p, r, "C12.R12", 0, "pkg/rtprtcp", "pkg/sdp", "pkg/avc", "pkg/hevc", "pkg/aac")
 	c07r7As(p, r, "C12.R7")
 }
